@@ -4,6 +4,7 @@ import (
 	"fmt"
 	"go/token"
 	"go/types"
+	"os"
 	"sort"
 	"strings"
 	"time"
@@ -79,9 +80,23 @@ type heldLock struct {
 	At   ssa.Instruction
 }
 
+// frame is one inlined call on the abstract path.
+type frame struct {
+	call     *ssa.Call
+	fn       *ssa.Function
+	params   []*CE
+	retBlk   *ssa.BasicBlock
+	retIdx   int
+	retPred  *ssa.BasicBlock
+	deferred []*ssa.Defer // the caller's pending defers
+}
+
 // State is one node of the partitioned control-flow exploration.
 type State struct {
 	blk      *ssa.BasicBlock
+	idx      int // instruction index to resume at (after an inlined call returned)
+	frames   []*frame
+	callres  map[*ssa.Call][]*CE
 	pred     *ssa.BasicBlock
 	live     map[string]*Fact // facts still valid (re-evaluation, nil checks)
 	hist     map[string]*Fact // decisions taken on the path (never killed by effects)
@@ -95,7 +110,12 @@ type State struct {
 }
 
 func (s *State) clone() *State {
-	n := &State{blk: s.blk, pred: s.pred, parent: s, epoch: s.epoch}
+	n := &State{blk: s.blk, idx: s.idx, pred: s.pred, parent: s, epoch: s.epoch}
+	n.frames = append([]*frame(nil), s.frames...)
+	n.callres = make(map[*ssa.Call][]*CE, len(s.callres))
+	for k, v := range s.callres {
+		n.callres[k] = v
+	}
 	n.live = make(map[string]*Fact, len(s.live))
 	for k, v := range s.live {
 		n.live[k] = v
@@ -119,6 +139,29 @@ func (s *State) clone() *State {
 		n.seen[k] = v
 	}
 	return n
+}
+
+// boundArg: the caller's argument bound to a parameter of an inlined callee.
+func (s *State) boundArg(p *ssa.Parameter) *CE {
+	for i := len(s.frames) - 1; i >= 0; i-- {
+		fr := s.frames[i]
+		if fr.fn == p.Parent() {
+			for j, q := range fr.fn.Params {
+				if q == p && j < len(fr.params) {
+					return fr.params[j]
+				}
+			}
+		}
+	}
+	return nil
+}
+
+// curFn: the function whose code the state is executing.
+func (ex *Explorer) curFn(s *State) *ssa.Function {
+	if n := len(s.frames); n > 0 {
+		return s.frames[n-1].fn
+	}
+	return ex.Fn
 }
 
 func (s *State) lookupStore(path string) (storeEnt, bool) {
@@ -156,7 +199,28 @@ func (s *State) ReadLocal(path string) (string, bool) {
 
 func (s *State) key() string {
 	var sb strings.Builder
-	fmt.Fprintf(&sb, "b%d|", s.blk.Index)
+	fmt.Fprintf(&sb, "b%d.%d|", s.blk.Index, s.idx)
+	for _, fr := range s.frames {
+		fmt.Fprintf(&sb, "%s@%s>", fr.fn.Name(), fr.call.Name())
+		for _, p := range fr.params {
+			sb.WriteString(p.S)
+			sb.WriteByte(',')
+		}
+	}
+	sb.WriteByte('|')
+	if len(s.callres) > 0 {
+		var crs []string
+		for c, res := range s.callres {
+			x := c.Parent().Name() + "." + c.Name() + "="
+			for _, r := range res {
+				x += r.S + ";"
+			}
+			crs = append(crs, x)
+		}
+		sort.Strings(crs)
+		sb.WriteString(strings.Join(crs, "&"))
+	}
+	sb.WriteByte('|')
 	if len(s.blk.Instrs) > 0 {
 		if _, ok := s.blk.Instrs[0].(*ssa.Phi); ok && s.pred != nil {
 			fmt.Fprintf(&sb, "p%d|", s.pred.Index)
@@ -273,10 +337,16 @@ type Explorer struct {
 	Exceeded bool
 	LockProblems []LockProblem
 	closureAllocs map[*ssa.Alloc]bool
+	// Inline decides whether a static call to a first-party function is explored
+	// inline (its body becomes part of the abstract path, parameters bound to
+	// the caller's arguments). nil = never.
+	Inline func(caller, callee *ssa.Function) bool
+	inlinedClosureScan map[*ssa.Function]bool
 }
 
 func NewExplorer(p *Program, pu *Purity, fn *ssa.Function) *Explorer {
 	ex := &Explorer{P: p, Pure: pu, Fn: fn, Info: InfoOf(fn), MaxNodes: 400000, closureAllocs: map[*ssa.Alloc]bool{}}
+	ex.Inline = defaultInline
 	for _, b := range fn.Blocks {
 		for _, in := range b.Instrs {
 			if mc, ok := in.(*ssa.MakeClosure); ok {
@@ -757,7 +827,7 @@ func rootAlloc(v ssa.Value) *ssa.Alloc {
 // forgetLoop implements the back-edge rule: values defined in the loop are
 // about to be redefined, so nothing remembered about them may survive.
 func (ex *Explorer) forgetLoop(st *State, header *ssa.BasicBlock) {
-	defs := ex.Info.LoopDefs[header.Index]
+	defs := InfoOf(header.Parent()).LoopDefs[header.Index]
 	mention := func(d map[ssa.Value]bool) bool {
 		for v := range d {
 			if defs[v] {
@@ -797,8 +867,8 @@ func (ex *Explorer) forgetLoop(st *State, header *ssa.BasicBlock) {
 
 // enter moves st into block b coming from pred, resolving phis.
 func (ex *Explorer) enter(st *State, pred, b *ssa.BasicBlock) {
-	back := pred != nil && ex.Info.BackEdge[[2]int{pred.Index, b.Index}]
-	st.blk, st.pred = b, pred
+	back := pred != nil && InfoOf(b.Parent()).BackEdge[[2]int{pred.Index, b.Index}]
+	st.blk, st.pred, st.idx = b, pred, 0
 	if back {
 		if ex.Hooks.BackEdge != nil {
 			ex.Hooks.BackEdge(st, pred, b)
@@ -820,7 +890,7 @@ func (ex *Explorer) enter(st *State, pred, b *ssa.BasicBlock) {
 	// resolve phis of b simultaneously: the incoming values are evaluated
 	// in the predecessor's state
 	res := map[*ssa.Phi]int{}
-	isHeader := ex.Info.LoopOf[b.Index] != nil
+	isHeader := InfoOf(b.Parent()).LoopOf[b.Index] != nil
 	for _, in := range b.Instrs {
 		p, ok := in.(*ssa.Phi)
 		if !ok {
@@ -844,12 +914,26 @@ func (ex *Explorer) enter(st *State, pred, b *ssa.BasicBlock) {
 	}
 }
 
+// currentRoot is the function being explored (single-threaded checker); anm
+// qualifies the names of values that belong to inlined callees.
+var currentRoot *ssa.Function
+
+func anm(v ssa.Value) string {
+	if in, ok := v.(ssa.Instruction); ok && in.Parent() != nil && currentRoot != nil && in.Parent() != currentRoot {
+		return in.Parent().Name() + "·" + v.Name()
+	}
+	return v.Name()
+}
+
 // Run explores fn from its entry.
 func (ex *Explorer) Run() {
 	if len(ex.Fn.Blocks) == 0 {
 		return
 	}
-	init := &State{blk: ex.Fn.Blocks[0], live: map[string]*Fact{}, hist: map[string]*Fact{}, phis: map[*ssa.Phi]int{}, store: map[string]*CE{}, seen: map[string]bool{}}
+	prevRoot := currentRoot
+	currentRoot = ex.Fn
+	defer func() { currentRoot = prevRoot }()
+	init := &State{blk: ex.Fn.Blocks[0], live: map[string]*Fact{}, hist: map[string]*Fact{}, phis: map[*ssa.Phi]int{}, store: map[string]*CE{}, seen: map[string]bool{}, callres: map[*ssa.Call][]*CE{}}
 	if ex.Hooks.Assume != nil {
 		ex.Hooks.Assume(init)
 	}
@@ -877,7 +961,9 @@ func (ex *Explorer) Run() {
 		cur.parent = st
 		b := st.blk
 		var succs []*State
-		for _, in := range b.Instrs {
+		stopped := false
+		for i := st.idx; i < len(b.Instrs) && !stopped; i++ {
+			in := b.Instrs[i]
 			if _, ok := in.(*ssa.Phi); ok {
 				continue
 			}
@@ -894,7 +980,6 @@ func (ex *Explorer) Run() {
 					if r == -1 {
 						assume(t, a, true, in)
 					} else if a.Const == nil {
-						// keep the decision visible in hist even if derived
 						if _, ok := t.hist[a.key()]; !ok {
 							t.hist[a.key()] = t.live[a.key()]
 						}
@@ -921,6 +1006,22 @@ func (ex *Explorer) Run() {
 				ex.enter(n, b, b.Succs[0])
 				succs = append(succs, n)
 			case *ssa.Return:
+				if nf := len(cur.frames); nf > 0 {
+					// return from an inlined callee: bind results, resume the caller
+					fr := cur.frames[nf-1]
+					n := cur.clone()
+					n.parent = st
+					var res []*CE
+					for _, r := range x.Results {
+						res = append(res, ex.Canon(cur, r))
+					}
+					n.frames = n.frames[:nf-1]
+					n.callres[fr.call] = res
+					n.deferred = append([]*ssa.Defer(nil), fr.deferred...)
+					n.blk, n.idx, n.pred = fr.retBlk, fr.retIdx, fr.retPred
+					succs = append(succs, n)
+					break
+				}
 				if ex.Hooks.Exit != nil {
 					ex.Hooks.Exit(cur, in)
 				}
@@ -933,6 +1034,27 @@ func (ex *Explorer) Run() {
 					ex.Hooks.Exit(cur, in)
 				}
 			default:
+				if call, ok := in.(*ssa.Call); ok && ex.Inline != nil {
+					if callee := call.Call.StaticCallee(); callee != nil && !call.Call.IsInvoke() && ex.canInline(cur, callee) && ex.Inline(ex.curFn(cur), callee) {
+						if os.Getenv("CDLINT_DEBUG_INLINE") != "" {
+							fmt.Fprintf(os.Stderr, "inline %s into %s\n", callee.Name(), ex.curFn(cur).Name())
+						}
+						n := cur.clone()
+						n.parent = st
+						fr := &frame{call: call, fn: callee, retBlk: b, retIdx: i + 1, retPred: cur.pred, deferred: cur.deferred}
+						for _, a := range call.Call.Args {
+							fr.params = append(fr.params, ex.Canon(cur, a))
+						}
+						ex.forgetFunc(n, callee)
+						delete(n.callres, call)
+						n.frames = append(n.frames, fr)
+						n.deferred = nil
+						n.blk, n.idx, n.pred = callee.Blocks[0], 0, nil
+						succs = append(succs, n)
+						stopped = true
+						break
+					}
+				}
 				ex.step(cur, in)
 				if ex.Hooks.Label != nil {
 					if l := ex.Hooks.Label(cur, in); l != "" {
@@ -942,6 +1064,92 @@ func (ex *Explorer) Run() {
 			}
 		}
 		work = append(work, succs...)
+	}
+}
+
+// canInline: bodies only, no recursion, bounded depth and size.
+func (ex *Explorer) canInline(st *State, callee *ssa.Function) bool {
+	if len(callee.Blocks) == 0 || len(callee.Blocks) > 80 || len(st.frames) >= 3 || callee == ex.Fn {
+		return false
+	}
+	for _, fr := range st.frames {
+		if fr.fn == callee {
+			return false
+		}
+	}
+	if ex.inlinedClosureScan == nil {
+		ex.inlinedClosureScan = map[*ssa.Function]bool{}
+	}
+	if !ex.inlinedClosureScan[callee] {
+		ex.inlinedClosureScan[callee] = true
+		for _, b := range callee.Blocks {
+			for _, in := range b.Instrs {
+				if mc, ok := in.(*ssa.MakeClosure); ok {
+					for _, bnd := range mc.Bindings {
+						if a, ok := bnd.(*ssa.Alloc); ok {
+							ex.closureAllocs[a] = true
+						}
+					}
+				}
+			}
+		}
+	}
+	return true
+}
+
+// forgetFunc: the callee's SSA values are about to be (re)defined.
+func (ex *Explorer) forgetFunc(st *State, callee *ssa.Function) {
+	mention := func(d map[ssa.Value]bool) bool {
+		for v := range d {
+			if in, ok := v.(ssa.Instruction); ok && in.Parent() == callee {
+				return true
+			}
+			if p, ok := v.(*ssa.Parameter); ok && p.Parent() == callee {
+				return true
+			}
+		}
+		return false
+	}
+	for k, f := range st.live {
+		if mention(f.Deps) {
+			delete(st.live, k)
+		}
+	}
+	for k, f := range st.hist {
+		if mention(f.Deps) {
+			delete(st.hist, k)
+		}
+	}
+	for k, ce := range st.store {
+		if mention(ce.Deps) {
+			delete(st.store, k)
+		}
+	}
+	for p := range st.phis {
+		if p.Parent() == callee {
+			delete(st.phis, p)
+		}
+	}
+	for c := range st.callres {
+		if c.Parent() == callee {
+			delete(st.callres, c)
+		}
+	}
+}
+
+// SamePackageInline is the default inlining policy of the decision-table
+// rules: helpers of the same package are explored inline unless the rule
+// treats them as an anchor (keep).
+func SamePackageInline(keep ...string) func(caller, callee *ssa.Function) bool {
+	k := map[string]bool{}
+	for _, n := range keep {
+		k[n] = true
+	}
+	return func(caller, callee *ssa.Function) bool {
+		if !FirstParty(callee) || k[callee.Name()] || k[callee.String()] {
+			return false
+		}
+		return fnPkgPath(caller) == fnPkgPath(callee)
 	}
 }
 
@@ -1247,4 +1455,35 @@ func (ex *Explorer) applyCarry(st *State, carry map[*ssa.Phi]int) {
 		x := "φ" + p.Name()
 		st.live["nil:"+x] = &Fact{Kind: "nil", X: x, Val: n == 1, Deps: map[ssa.Value]bool{p: true}, Epoch: st.epoch}
 	}
+}
+
+// helperAnchors: the first-party helper functions that exist on the pinned
+// tree and that rules refer to by (resolved) name — as call sites, in
+// canonical strings, or by analysing them on their own. They stay opaque
+// calls. Any *other* same-package helper (one introduced by a refactoring) is
+// explored inline, so extracting code into a helper does not change verdicts.
+var helperAnchors = map[string]bool{
+	"toIndex": true, "toOffset": true, "toPrefix": true, "toIP": true, "Offset": true, "AddPrefixes": true,
+	"recordKey": true, "samePrefix": true, "addPrefix": true, "dup": true,
+	"splitHostPort": true, "protoVersionCheck": true, "getListenAddress": true, "expandLLMulticast": true,
+	"defaultListen": true, "getPlugins": true, "parsePlugins": true, "parseListen": true, "parseConfig": true,
+	"Load": true, "New": true, "ConfigErrorFromString": true, "ConfigErrorFromError": true,
+	"parseHWAddr": true, "loadRecords": true, "saveIPAddress": true, "registerBackingDB": true, "loadDB": true,
+	"loadFromFile": true, "LoadDHCPv4Records": true, "LoadDHCPv6Records": true, "setupFile": true, "recordCount": true,
+	"sendEthernet": true, "LoadPlugins": true, "RegisterPlugin": true, "GetLogger": true,
+	"NewBitmapAllocator": true, "NewIPv4Allocator": true, "checkValidNetmask": true, "copySlice": true, "parseArgs": true,
+	"listen4": true, "listen6": true, "Start": true, "Serve": true, "HandleMsg4": true, "HandleMsg6": true,
+	"Allocate": true, "Free": true, "Handle": true, "Handler4": true, "Handler6": true,
+	"makeSleepHandler4": true, "makeSleepHandler6": true,
+}
+
+func defaultInline(caller, callee *ssa.Function) bool {
+	if !FirstParty(callee) || helperAnchors[callee.Name()] || callee.Synthetic != "" {
+		return false
+	}
+	// setup functions and handlers are entry points, never helpers
+	if strings.HasPrefix(callee.Name(), "setup") {
+		return false
+	}
+	return fnPkgPath(caller) == fnPkgPath(callee)
 }
